@@ -835,6 +835,11 @@ analyze_function(CallGraphNode cg_node,
                              << "++ Fixpoint reached for recursive function "
                              << cfg.get_func_decl().get_func_name() << "!\n";);
       // Don't check invariants with the last iteration
+      if (iteration == 0) {
+        // no earlier iteration stored the invariants of this calling context
+        ctx.join_invariants_with(cg_node, analyzer->get_pre_invariants(),
+                                 analyzer->get_post_invariants());
+      }
       return nullptr;
     } else {
       CRAB_VERBOSE_IF(1, get_msg_stream()
